@@ -65,6 +65,144 @@ func referenceSnapshot(rdbKeys []rc.Record, want []Fwd, pos int) map[string]stri
 }
 
 func runC04(c *core.Ctx) *core.Violation {
+	if c.T.Choose(8) == 7 {
+		return runC04TwoSources(c)
+	}
+	return runC04Cuts(c)
+}
+
+// runC04TwoSources: two source nodes synced by two DbSyncers of one tool process into one target. Each syncer's groups
+// must carry that syncer's own checkpoint (fields named after its own source, its own run id, an offset of its own
+// stream), and at the end each source's stored offset is the end of its own stream.
+func runC04TwoSources(c *core.Ctx) *core.Violation {
+	t := c.T
+	c.Sub = "two-sources"
+	env.DefaultOptions(conf.TypeSync)
+	lc := env.CaptureLog("info", 8<<20)
+	conf.Options.ResumeFromBreakPoint = true
+	conf.Options.KeyExists = "rewrite"
+	conf.Options.TargetReplace = true
+	conf.Options.Metric = true
+	conf.Options.SenderCount = uint([]int{1024, 1, 3}[t.Choose(3)])
+	type srcCase struct {
+		o0     int64
+		cmds   []Cmd
+		stream []byte
+		want   []Fwd
+		rel    []modelredis.Release
+		addr   string
+	}
+	var sc [2]srcCase
+	last := time.Duration(0)
+	for i := range sc {
+		sc[i].o0 = []int64{1000, 500000}[i] + int64(t.Choose(100))
+		sc[i].cmds, sc[i].stream = GenStream(t, StreamOpts{MaxCmds: 14, DBs: 2, StartDB: -1, NonIdem: true, MinCmds: 4, NoScripts: true, KeyPrefixes: []string{fmt.Sprintf("s%d:", i)}})
+		sc[i].want = ExpectedForward(sc[i].cmds, FilterCfg{TargetDB: -1})
+		at := time.Second
+		for _, cm := range sc[i].cmds {
+			if t.Choose(2) == 0 {
+				at += time.Duration(t.Choose(1200)) * time.Millisecond
+			}
+			sc[i].rel = append(sc[i].rel, modelredis.Release{Upto: cm.EndOff, At: at})
+		}
+		sc[i].rel = append(sc[i].rel, modelredis.Release{Upto: len(sc[i].stream), At: at})
+		if at > last {
+			last = at
+		}
+	}
+	if len(sc[0].want) == 0 || len(sc[1].want) == 0 {
+		return nil
+	}
+	c.Sample = map[string]interface{}{"sub": "two-sources", "o0": []int64{sc[0].o0, sc[1].o0}, "forwarded": []int{len(sc[0].want), len(sc[1].want)}, "sender_count": conf.Options.SenderCount}
+	var viol *core.Violation
+	var e *SyncEnv
+	var diag []string
+	s := simrt.Run(c.TT, t, simrt.Config{MaxSteps: 4000000, MaxSimTime: time.Hour, Trace: c.Trace}, func(s *simrt.Sim) {
+		e = NewSyncEnv(c, s, lc)
+		m := e.AddSource()
+		srcs := []*modelredis.Master{e.Src, m}
+		for i, x := range srcs {
+			x.O0, x.Stream, x.Release = sc[i].o0, sc[i].stream, sc[i].rel
+			x.RDB, _ = smallRDB(t, 0)
+			sc[i].addr = x.Addr
+		}
+		defer func() { diag = e.Diag() }()
+		e.StartTool()
+		total := len(sc[0].want) + len(sc[1].want)
+		e.WaitUntil(last+60*time.Second, 100*time.Millisecond, func() bool {
+			n := 0
+			_, by := e.CommandsByConn()
+			for _, l := range by {
+				n += len(l)
+			}
+			return n >= total && s.Now() > last+2*time.Second
+		})
+		s.Sleep(1500 * time.Millisecond)
+		if e.ToolAborted() {
+			viol = core.Violate("abort", "two-sources,err="+env.ErrClass(e.AbortText()), "the tool aborted without an injected fault: %s", e.AbortText())
+			return
+		}
+		// wire: within one MULTI/EXEC group the checkpoint fields belong to the source whose keys the group carries
+		owner := map[int]int{} // ExecID -> source index
+		for _, a := range e.Tgt.Applied {
+			if a.ExecID == 0 || a.IsError {
+				continue
+			}
+			for _, x := range a.Args[1:] {
+				for i := range sc {
+					if bytes.Contains(x, []byte(fmt.Sprintf("s%d:", i))) {
+						owner[a.ExecID] = i + 1
+					}
+				}
+			}
+		}
+		for _, a := range e.Tgt.Applied {
+			if a.ExecID == 0 || a.Name() != "hset" || len(a.Args) < 4 || !bytes.HasPrefix(a.Args[1], []byte("redis-shake-checkpoint")) {
+				continue
+			}
+			o := owner[a.ExecID]
+			if o == 0 {
+				continue
+			}
+			me := sc[o-1]
+			if !bytes.HasPrefix(a.Args[2], []byte(me.addr+"-")) {
+				viol = core.Violate("checkpoint-of-another-source", "two-sources", "a group carrying keys of source %s stores the checkpoint field %q", me.addr, a.Args[2])
+				return
+			}
+			if string(a.Args[2]) == me.addr+"-offset" {
+				off, _ := strconv.ParseInt(string(a.Args[3]), 10, 64)
+				if off < me.o0 || off > me.o0+int64(len(me.stream)) {
+					viol = core.Violate("checkpoint-offset", "two-sources,out-of-stream", "source %s: stored offset %d is outside its stream [%d,%d]", me.addr, off, me.o0, me.o0+int64(len(me.stream)))
+					return
+				}
+			}
+		}
+		// end state: each source's newest checkpoint is the end of its own stream, under its own run id
+		for i, x := range srcs {
+			off, _, runid, hasVer := storedCheckpoint(e.Tgt, sc[i].addr)
+			wantOff := sc[i].o0 + int64(lastForwardedEnd(sc[i].cmds, sc[i].want))
+			if off < wantOff || off > sc[i].o0+int64(len(sc[i].stream)) || runid != x.RunID || !hasVer {
+				viol = core.Violate("checkpoint-final", "two-sources", "source %s: final checkpoint offset %d run id %q version present %v; its stream ends at %d (last forwarded command at %d), its run id is %q", sc[i].addr, off, runid, hasVer, sc[i].o0+int64(len(sc[i].stream)), wantOff, x.RunID)
+				return
+			}
+		}
+		c.Probe("two_sources")
+	})
+	c.Absorb(s)
+	c.Log = diag
+	c.Nontrivial = true
+	return viol
+}
+
+// lastForwardedEnd: stream index just after the last forwarded command.
+func lastForwardedEnd(cmds []Cmd, want []Fwd) int {
+	if len(want) == 0 {
+		return 0
+	}
+	return want[len(want)-1].EndOff
+}
+
+func runC04Cuts(c *core.Ctx) *core.Violation {
 	t := c.T
 	env.DefaultOptions(conf.TypeSync)
 	lc := env.CaptureLog("info", 8<<20)
